@@ -18,7 +18,7 @@ from . import c11 as K
 PROP = 'C14'
 LEAN_MODULES = ['Femio.Props.C14']
 THEOREMS = ['C14_mean_of_nodes', 'C14_mean_of_nodes_unknown_id', 'C14_affine_at_centroid', 'C14_mean_row_stochastic',
-            'C14_constants', 'C14_bounds', 'C14_weights_prop_size', 'C14_effective_colsum', 'C14_effective_total']
+            'C14_incidence_of_mesh', 'C14_constants', 'C14_bounds', 'C14_weights_prop_size', 'C14_effective_colsum', 'C14_effective_total']
 PARTIAL = ['order1_only=True (first-order nodes of tet2 only) is exercised by the oracle, not modelled',
            'convert_nodal2elemental without calc_average (plain gather / ravel) is covered by the gather lemma only']
 RULE = ('seeded meshes (tri, quad, tri+quad, tet, tet2, hex, prism, pyr, hex+prism+pyr; affine / jittered; voids; unreferenced '
